@@ -25,7 +25,7 @@ META = dict(
                  'reference = the same program written with plain Python generators; logs must be equal after construction (empty), after the first k results and after point-wise access',
                  'eager operations (filter(lazy=False), sort, groupby, cache(lazy=False)) are the explicit exceptions of the statement and not part of this check'],
     bounds=dict(quick='16 program templates, n <= 3 source examples, every prefix length k in 0..len', thorough='n <= 4'),
-    outside=['templates beyond the 16 listed', 'real prefetch threads'],
+    outside=['demand-driven evaluation order: templates beyond the 16 listed; construction: compositions deeper than two lazy stages', 'real prefetch threads'],
 )
 
 
@@ -76,6 +76,13 @@ class Fns:
         def fn(ex):
             self.log.append((sid, tuple(tag_of(ex))))
             return U.leaf(ex) > t
+        return fn
+
+    def a(self, sid, inner=None):
+        """an apply function (receives the dataset)"""
+        def fn(ds):
+            self.log.append((sid, 'apply'))
+            return ds if inner is None else inner(ds)
         return fn
 
 
@@ -357,6 +364,89 @@ def body_pointwise(name, n, j, x0, x1, x2, x3, y0, y1, y2, c0, c1, c2, i):
     return True
 
 
+# ---- construction of every lazy combinator over every kind of lazy input, accepted or refused ------------------------------------
+def _first_stages(A, F, P, rng):
+    return {
+        'map': lambda: A.map(F.f(1, P[0])),
+        'filter': lambda: A.filter(F.p(1, P[0])),
+        'map_filter': lambda: A.map(F.f(1, P[0])).filter(F.p(3, P[2])),
+        'apply_lazy': lambda: A.map(F.f(1, P[0])).apply(F.a(3), lazy=True),
+        'apply_lazy_sort': lambda: A.map(F.f(1, P[0])).apply(F.a(3, lambda d: d.sort(F.f(4, 0))), lazy=True),
+        'unbatch': lambda: A.map(F.f(1, P[0])).batch(2).unbatch(),
+        'reshuffle': lambda: A.map(F.f(1, P[0])).shuffle(True, rng=rng),
+        'local': lambda: A.map(F.f(1, P[0])).shuffle(True, rng=rng, buffer_size=2),
+        'catch': lambda: A.map(F.f(1, P[0])).catch(),
+        'pf1': lambda: A.map(F.f(1, P[0])).prefetch(1, 2),
+        'cycle': lambda: A.map(F.f(1, P[0])).cycle(),
+    }
+
+
+def _second_stages(D, B, F, P, rng):
+    g = F.f(2, P[1])
+    return {
+        'none': lambda: D,
+        'map': lambda: D.map(g),
+        'parmap': lambda: D.map(g, num_workers=2, buffer_size=2),
+        'batch_map': lambda: D.batch(2).batch_map(g),
+        'filter': lambda: D.filter(F.p(2, P[1])),
+        'slice': lambda: D[1:],
+        'idx': lambda: D[[0]],
+        'batch': lambda: D.batch(2),
+        'unbatch': lambda: D.unbatch(),
+        'cat': lambda: D.concatenate(B.map(g)),
+        'isp': lambda: D.intersperse(B.map(g)),
+        'zip': lambda: D.zip(B.map(g)),
+        'items': lambda: D.items(),
+        'tile': lambda: D.tile(2),
+        'tile_shuffle': lambda: D.tile(2, shuffle=True),
+        'cycle': lambda: D.cycle(),
+        'cache': lambda: D.cache(),
+        'catch': lambda: D.catch(),
+        'copy': lambda: D.copy(),
+        'reshuffle': lambda: D.shuffle(True, rng=rng),
+        'local': lambda: D.shuffle(True, rng=rng, buffer_size=3),
+        'split': lambda: D.split(2)[0],
+        'pf1': lambda: D.prefetch(1, 2),
+        'pfw': lambda: D.prefetch(2, 4),
+        'pfw_cfe': lambda: D.prefetch(2, 2, catch_filter_exception=True),
+        'pf_mp': lambda: D.prefetch(1, 2, backend='mp'),
+        'apply_lazy': lambda: D.apply(F.a(5), lazy=True),
+        'profile': lambda: __import__('lazy_dataset').core.ProfilingDataset(D),
+    }
+
+
+FIRST = ('map', 'filter', 'map_filter', 'apply_lazy', 'apply_lazy_sort', 'unbatch', 'reshuffle', 'local', 'catch', 'pf1', 'cycle')
+SECOND = ('none', 'map', 'parmap', 'batch_map', 'filter', 'slice', 'idx', 'batch', 'unbatch', 'cat', 'isp', 'zip', 'items', 'tile', 'tile_shuffle', 'cycle', 'cache', 'catch',
+          'copy', 'reshuffle', 'local', 'split', 'pf1', 'pfw', 'pfw_cfe', 'pf_mp', 'apply_lazy', 'profile')
+
+
+def body_construct(first, second, backing, n, x0, x1, x2, x3, c0, c1, c2):
+    """constructing a pipeline from lazy combinators executes no user function (map / filter / apply functions) and reads no example -
+    whether the library accepts the composition or refuses it (a refusal must not have evaluated anything on the way either)"""
+    log = []
+    A, ca, va, _ = _mk(n, [x0, x1, x2, x3], 's', backing)
+    B, cb, vb, _ = _mk(2, [x1, x0, x2], 'z', backing)
+    F = Fns(log)
+    P = [c0, c1, c2]
+    rng = rt.Rng(sel=[0] * 9, choices=[0] * 6)
+    try:
+        D = _first_stages(A, F, P, rng)[first]()
+        ds = _second_stages(D, B, F, P, rng)[second]()
+    except Exception:   # noqa  - refused compositions are fine; evaluating user code while refusing is not
+        ds = None
+    rt.reached()
+    if log or ca.reads or cb.reads:
+        return False
+    if ds is not None and first not in ('cycle',) and second not in ('cycle',):
+        # the construction must not have *consumed* anything either: what is built still yields (it may refuse at first use)
+        try:
+            it = iter(ds)
+        except Exception:   # noqa
+            return True
+        return not log and not ca.reads
+    return True
+
+
 def U_realise(i, L):
     k = 0
     while k < L - 1 and k != i:
@@ -384,6 +474,10 @@ def _pconds(tier, seed):
 FAMILIES = [
     Family('prefix', body_prefix, ['name', 'n', 'k'], XP + CP + [('a', 'int'), ('b', 'int')], _pconds, timeout=dict(quick=60, thorough=300),
            desc='construction runs nothing; first k results: user-function log equals the plain-generator program'),
+    Family('construct', body_construct, ['first', 'second', 'backing', 'n'], XP[:4] + CP,
+           lambda tier, seed: [(a, b, bk, n) for a in FIRST for b in SECOND for bk in ('list', 'dict') for n in ((2,) if tier == 'quick' else (0, 1, 3))
+                               if not (bk == 'dict' and tier == 'quick' and b not in ('items', 'cat', 'isp', 'pfw', 'cache', 'catch'))], timeout=60,
+           desc='constructing any two-stage composition of lazy combinators (accepted or refused by the library) runs no user function and reads no example'),
     Family('second_pass', body_second_pass, ['n'], XP[:4] + CP[:2], lambda tier, seed: [(n,) for n in range(0, 4)], timeout=60, desc='cache: nothing upstream runs twice'),
     Family('pointwise', body_pointwise, ['name', 'n', 'j'], XP + CP + [('i', 'int')],
            lambda tier, seed: [(nm, n, j) for nm in ('map', 'batch', 'concat', 'slice', 'zip', 'cache', 'key_map', 'key_concat', 'key_kzip') for n in range(0, 4)
